@@ -7,7 +7,8 @@ PROP_FILES = ["Properties_C20"]
 TRUSTED = BASE_TRUSTED + [
     "modelled: the m_stack_state handshake (finilize_resume's exchange(suspended) + self-resume, try_notify_resume's exchange(notified))",
     "modelled, not verified: co_context stack switching, the resume task's trip through the arena's task streams, recall_owner / owner recall in one-slot arenas, "
-    "arena lifetime references — exercised by real suspend/resume runs (oracle) only; the model is not tied step by step to the code",
+    "arena lifetime references — exercised by real suspend/resume runs (oracle) only",
+    "tie: trace conformance of every access to m_stack_state (lock-and-log hooks in a libtbb compiled under the prelude; grouping of the log per suspension in Python, replay in Coq: SuspendModel.sconf)",
 ]
 KEYS = {"NOTONCE": "a suspended task did not continue exactly once", "TWICE": "a suspended task continued twice", "EARLYWAIT": "task_group::wait returned while a covered task was still suspended",
         "TWOTHREADS": "the code after suspend() ran concurrently with the code before it (two threads on one stack)"}
@@ -26,6 +27,56 @@ def oracle(c, toks):
         if d.get(k):
             return ("suspend-" + k.lower(), "%s: %s (%d)" % (pdesc(c), msg, d[k]))
     return None
+
+
+PRELUDE = vlib.os.path.join(vlib.VERIF, "harness", "prelude", "verif_atomic.h")
+
+
+def trace_tie(ctx, cases):
+    """Trace conformance of the m_stack_state handshake: libtbb and the driver are compiled under the atomic prelude, the accesses to the state
+    word of every suspended stack are executed and logged under one lock (all threads), and the log of each suspension is replayed on SuspendModel."""
+    glib, err = ctx.build_lib("tbb", gated=True)
+    if err:
+        return ctx.broken("libtbb build under the atomic prelude", err)
+    texe, err = ctx.build_driver("drv_susptrace", libs=[glib], extra=["-include", PRELUDE], opt="-O1")
+    if err:
+        return ctx.broken("drv_susptrace build", err)
+    rc, lines, err = ctx.run_driver(texe, [], cases, timeout=900)
+    inputs, owners = [], []
+    bad = 0
+    for c, ln in zip(cases, lines + ["HANG"] * (len(cases) - len(lines))):
+        toks = ln.split()
+        ctx.count(("suspend-trace", tuple(c)), True, "suspend-trace P=%d mode=%d" % (c[1], c[3]))
+        if not toks or toks[-1] == "HANG" or "-9" not in toks:
+            bad += 1
+            ctx.add(Finding("violation", "suspend-hang-or-crash", "trace run %s: a suspended task was never resumed / crash" % c, {"tie": "suspend-trace", "case": c}))
+            continue
+        v = [int(t) for t in toks]
+        end = v.index(-9)
+        notonce, two = v[end + 1], v[end + 2]
+        if notonce or two:
+            bad += 1
+            ctx.add(Finding("violation", "suspend-notonce", "trace run %s: %d suspension(s) did not continue exactly once, %d times two threads on one stack" % (c, notonce, two), {"tie": "suspend-trace", "case": c}))
+            continue
+        per = {}
+        for i in range(0, end, 4):
+            tag, kind, before, after = v[i:i + 4]
+            code = {(3, 1): 1, (3, 2): 2, (2, 0): 3, (2, 2): 4}.get((kind, after), 9)
+            per.setdefault(tag, []).extend([code, before])
+        for tag, ev in per.items():
+            inputs.append(ev)
+            owners.append((c, tag, ev))
+    for (c, tag, ev), mo in zip(owners, ctx.modelrun("suspconf", inputs) if inputs else []):
+        if mo[0] != -1 or mo[1] != 1:
+            bad += 1
+            if bad <= 3:
+                names = {1: "exchange(suspended)", 2: "exchange(notified)", 3: "store(active)", 4: "store(notified)", 9: "other access"}
+                txt = "; ".join("%s saw %d" % (names[ev[i]], ev[i + 1]) for i in range(0, len(ev), 2))
+                ctx.add(Finding("broken", "broken:tie:suspend-trace", "seed %d, task_arena(%d), suspension %d: the accesses to m_stack_state (%s) do not conform to SuspendModel at event #%d "
+                                "(complete rounds: %d)" % (c[0], c[1], tag, txt, mo[0], mo[1]), {"tie": "suspend-trace", "case": c}))
+        else:
+            ctx.traces_validated += 1
+    ctx.ties.append({"name": "suspend-trace (every access to m_stack_state of a suspended stack replayed on SuspendModel)", "cases": len(inputs), "disagreements": bad})
 
 
 def run(ctx):
@@ -61,7 +112,17 @@ def run(ctx):
     oracle_tie(ctx, "suspend-waiter", exe, [], wcases, oracle, describe=pdesc, bucket=lambda c: "suspend-waiter P=%d mode=%d" % (c[1], c[3]), timeout=900)
 
 
+    rng2 = ctx.rng
+    tcases = [[ctx.seed * 1000 + 900000 + i, rng2.choice([1, 2, 3, 4, 8]), rng2.choice([1, 2, 4, 8, 20]), rng2.choice([0, 0, 1, 2, 3]), rng2.choice([0, 60, 200])] for i in range(ctx.scale(60, 1500))]
+    ctx.rules.append("suspend-trace: the real suspend/resume (library compiled under the atomic prelude), 1-20 suspending tasks in arenas of 1-8 threads, resumed from the callback / a foreign thread / "
+                     "another task, seeded delays at the logged accesses; every access to the state word of a suspended stack, in its exact order, must be a step of SuspendModel with the observed old value, "
+                     "and every round must end with exactly one resume task pushed")
+    trace_tie(ctx, tcases)
+
+
 def replay(ctx, rep):
+    if rep.get("tie") == "suspend-trace":
+        return trace_tie(ctx, [rep["case"]])
     lib, err = ctx.build_lib("tbb")
     exe, err = ctx.build_driver("drv_suspend", libs=[lib], opt="-O1")
     oracle_tie(ctx, "suspend", exe, [], [rep["case"]], oracle, describe=pdesc)
